@@ -185,7 +185,6 @@ func (srv *Server) Close() error {
 		}
 	}
 
-	close(srv.transportChan)
 	return multierr.Combine(errs...)
 }
 
